@@ -528,6 +528,15 @@ def main(argv):
                 continue
             if report("cert", item):
                 seen.add(("c", item["name"]))
+        if P.get("corr_is_property"):
+            # the property itself says "implementation = this (proved) model": a disagreement on an
+            # in-domain input is a failing input of the property, not only a broken tie
+            for item in an["corr"]:
+                if ("k", item["name"]) in seen:
+                    continue
+                it = dict(item); it["spec"] = it.get("model", [])
+                if report("monitor", it):
+                    seen.add(("k", item["name"]))
         direct = [v for v in violations]
         broken_corr = an["corr"] or an["missing"]
         broken_proof = bool(aud["problems"])
